@@ -19,6 +19,10 @@ def run(ctx):
     # history-free configuration: a finite cyclic graph, so the invariants hold for histories of EVERY length
     ctx.tlc("roll-win", "MCRollWin", "MCRollWin_quick.cfg" if q else "MCRollWin_thorough.cfg", workers=12 if q else 16,
             timeout=900 if q else 7200, emit=False)
+    # the add -> emit -> remove protocol for EVERY length, window and summand: what is emitted is the sum over exactly
+    # the window, what stays is the part the next position keeps (TLA+ proof system, 95 obligations; index arithmetic
+    # shared with Window.tla through WindowIdx.tla)
+    ctx.tlaps("roll-sum-proof", "RollSumProof", needs=("WindowIdx",))
     binp = ctx.build("tvh-roll")
     extra = ([] if q else ["--full"]) + laws1(ctx)
     ctx.harness("roll-bfs", binp, ["replay-roll1", "--kernels", FEAT, "--in", r1["emitted"]] + extra)
